@@ -187,6 +187,7 @@ type caller struct {
 }
 
 type runner struct {
+	arrivals int // datagrams delivered by "arrive" (every third one gets a damaged tail)
 	o     *hx.Out
 	sc    *schedule
 	async bool
@@ -496,6 +497,16 @@ func (x *runner) do(e event) (line, obs string) {
 			b = append(b, seg(conv, kcp.IKCP_CMD_PUSH, x.nextSn, x.acked, payload)...)
 			x.nextSn++
 			line += fmt.Sprintf(" %d", m)
+		}
+		// every third datagram carries a damaged tail behind its valid segments (a truncated header, or a
+		// segment of another conversation): Input reports an error for the datagram, but what it had
+		// already taken is readable and the waiters must hear about it — same event for the model
+		x.arrivals++
+		switch x.arrivals % 6 {
+		case 2:
+			b = append(b, seg(conv, kcp.IKCP_CMD_PUSH, x.nextSn, x.acked, []byte("cut"))[:17]...)
+		case 5:
+			b = append(b, seg(conv+1, kcp.IKCP_CMD_PUSH, x.nextSn, x.acked, []byte("foreign"))...)
 		}
 		x.mc.ch <- dgram{b, x.remote}
 		return line, obs
